@@ -2,6 +2,7 @@ package rules
 
 import (
 	"fmt"
+	"strings"
 
 	"go/token"
 	"go/types"
@@ -55,13 +56,54 @@ func (c *Ctx) isAVPDecodeFn(g *ssa.Function) bool {
 }
 
 type walkLoop struct {
-	fn     *ssa.Function
-	loop   *flow.Loop
-	call   *ssa.Call  // decode call
-	avp    ssa.Value  // *AVP result
-	slice  *ssa.Slice // argument
-	stride ssa.Value  // amount added per iteration
-	form   string
+	fn        *ssa.Function
+	loop      *flow.Loop
+	call      *ssa.Call  // decode call
+	avp       ssa.Value  // *AVP decoded in this iteration
+	slice     *ssa.Slice // argument (nil when the slice is taken in a helper or the buffer is re-sliced)
+	cursor    ssa.Value  // loop cursor (nil in the re-slicing form)
+	container ssa.Value  // the bytes walked
+	stride    ssa.Value  // amount added per iteration
+	form      string
+}
+
+// avpDecodeCall classifies a call as "decodes one AVP from bytes": a library function of package diam that
+// takes a []byte and either returns *AVP or is a method of *AVP (the decoder itself, or a wrapper of it).
+// It returns the decoded AVP value and the index of the []byte argument.
+func (c *Ctx) avpDecodeCall(call *ssa.Call) (ssa.Value, int, bool) {
+	g := flow.StaticCallee(call)
+	if g == nil || !c.P.IsLibrary(g) || pkgOf(g).Path() != pkgDiam || g.Blocks == nil {
+		return nil, 0, false
+	}
+	bi := -1
+	for i, p := range g.Params {
+		if isByteSlice(p.Type()) && bi < 0 {
+			bi = i
+		}
+	}
+	if bi < 0 || bi >= len(call.Call.Args) {
+		return nil, 0, false
+	}
+	sig := g.Signature
+	if sig.Results().Len() >= 1 {
+		if rp, ok := sig.Results().At(0).Type().(*types.Pointer); ok && flow.TypeIs(rp.Elem(), pkgDiam, "AVP") {
+			var av ssa.Value = call
+			for _, ref := range flow.Referrers(call) {
+				if ex, ok := ref.(*ssa.Extract); ok && ex.Index == 0 {
+					av = ex
+				}
+			}
+			return av, bi, true
+		}
+	}
+	if sig.Recv() != nil && flow.RecvTypeName(sig) == "AVP" {
+		// the decoder method: stores the wire Length into its receiver (directly or through one wrapper)
+		top, _, _ := c.avpDecoder()
+		if g == top || c.reachesFunc(g, top, map[*ssa.Function]bool{}) {
+			return call.Call.Args[0], bi, true
+		}
+	}
+	return nil, 0, false
 }
 
 func (c *Ctx) walkLoops() ([]*walkLoop, []string) {
@@ -77,60 +119,96 @@ func (c *Ctx) walkLoops() ([]*walkLoop, []string) {
 		}
 		for _, ci := range flow.CallInstrs(f) {
 			call, ok := ci.(*ssa.Call)
-			if !ok || !c.isAVPDecodeFn(flow.StaticCallee(call)) {
+			if !ok {
+				continue
+			}
+			av, bi, ok := c.avpDecodeCall(call)
+			if !ok {
 				continue
 			}
 			l := flow.InnermostLoop(loops, call)
 			if l == nil {
 				continue
 			}
-			w := &walkLoop{fn: f, loop: l, call: call}
-			for _, ref := range flow.Referrers(call) {
-				if ex, ok := ref.(*ssa.Extract); ok && ex.Index == 0 {
-					w.avp = ex
+			w := &walkLoop{fn: f, loop: l, call: call, avp: av}
+			arg := call.Call.Args[bi]
+			headPhi := func(v ssa.Value) *ssa.Phi {
+				ph, ok := v.(*ssa.Phi)
+				if ok && ph.Block() == l.Head {
+					return ph
 				}
+				return nil
 			}
-			sl, ok := call.Call.Args[0].(*ssa.Slice)
-			if !ok {
+			var cur *ssa.Phi
+			switch x := arg.(type) {
+			case *ssa.Slice:
+				w.slice, w.container = x, x.X
+				cur = headPhi(x.Low)
+				if cur == nil {
+					problems = append(problems, fmt.Sprintf("%s: the low bound of the slice given to the AVP decoder is not a loop cursor", fname(f)))
+					continue
+				}
+			case *ssa.Phi:
 				// re-slicing form: the argument is the loop phi itself
-				if ph, isPhi := call.Call.Args[0].(*ssa.Phi); isPhi && ph.Block() == l.Head {
+				if ph := headPhi(x); ph != nil {
 					for i, e := range ph.Edges {
 						if l.Blocks[ph.Block().Preds[i]] {
 							if rs, ok := e.(*ssa.Slice); ok && rs.X == ssa.Value(ph) && rs.High == nil {
-								w.stride, w.form = rs.Low, "re-slicing b = b[k:]"
+								w.stride, w.form, w.container = rs.Low, "re-slicing b = b[k:]", ph
 							}
 						}
 					}
 				}
-				if w.stride == nil {
+			}
+			if w.slice == nil && w.stride == nil {
+				// the slice b[offset:] is taken inside the callee from the container and a cursor argument
+				g := flow.StaticCallee(call)
+				for i, a := range call.Call.Args {
+					ph := headPhi(a)
+					if ph == nil || i >= len(g.Params) {
+						continue
+					}
+					gp, gb := g.Params[i], g.Params[bi]
+					okSlice := false
+					flow.Instrs(g, func(in ssa.Instruction) {
+						if sl, ok := in.(*ssa.Slice); ok && sl.X == ssa.Value(gb) && sl.Low == ssa.Value(gp) && sl.High == nil && sl.Max == nil {
+							for _, ref := range flow.Referrers(sl) {
+								if cc, ok := ref.(*ssa.Call); ok {
+									if _, _, isDec := c.avpDecodeCall(cc); isDec {
+										okSlice = true
+									}
+								}
+							}
+						}
+					})
+					if okSlice {
+						cur, w.container = ph, arg
+					}
+				}
+				if cur == nil {
 					problems = append(problems, fmt.Sprintf("%s: AVP decode call in a loop whose data argument is not a slice of the loop buffer", fname(f)))
 					continue
 				}
-				out = append(out, w)
-				continue
 			}
-			w.slice = sl
-			ph, ok := sl.Low.(*ssa.Phi)
-			if !ok || ph.Block() != l.Head {
-				problems = append(problems, fmt.Sprintf("%s: the low bound of the slice given to the AVP decoder is not a loop cursor", fname(f)))
-				continue
-			}
-			// back-edge value
-			for i, e := range ph.Edges {
-				if !l.Blocks[ph.Block().Preds[i]] {
-					continue
+			if cur != nil {
+				w.cursor = cur
+				// back-edge value
+				for i, e := range cur.Edges {
+					if !l.Blocks[cur.Block().Preds[i]] {
+						continue
+					}
+					bo, ok := e.(*ssa.BinOp)
+					if !ok || bo.Op != token.ADD {
+						problems = append(problems, fmt.Sprintf("%s: cursor is not advanced by an addition", fname(f)))
+						continue
+					}
+					if bo.X == ssa.Value(cur) {
+						w.stride = bo.Y
+					} else if bo.Y == ssa.Value(cur) {
+						w.stride = bo.X
+					}
+					w.form = "cursor n += k"
 				}
-				bo, ok := e.(*ssa.BinOp)
-				if !ok || bo.Op != token.ADD {
-					problems = append(problems, fmt.Sprintf("%s: cursor is not advanced by an addition", fname(f)))
-					continue
-				}
-				if bo.X == ssa.Value(ph) {
-					w.stride = bo.Y
-				} else if bo.Y == ssa.Value(ph) {
-					w.stride = bo.X
-				}
-				w.form = "cursor n += k"
 			}
 			if w.stride == nil {
 				problems = append(problems, fmt.Sprintf("%s: cannot identify the cursor increment", fname(f)))
@@ -194,14 +272,21 @@ func runC04(c *Ctx) {
 
 		// R4
 		key4 := fname(w.fn) + ":container-slice"
-		if w.slice != nil {
+		switch {
+		case w.slice != nil:
 			good := w.slice.High == nil && w.slice.Max == nil
 			baseInLoop := false
 			if in, ok := w.slice.X.(ssa.Instruction); ok && w.loop.Blocks[in.Block()] {
 				baseInLoop = true
 			}
 			r.Check(good && !baseInLoop, "R4", key4, c.pos(w.slice), "decoder receives b[n:] of the loop-invariant container", "the decoder is given something other than the rest of the enclosing container (b[n:])")
-		} else {
+		case w.cursor != nil:
+			baseInLoop := false
+			if in, ok := w.container.(ssa.Instruction); ok && w.loop.Blocks[in.Block()] {
+				baseInLoop = true
+			}
+			r.Check(!baseInLoop, "R4", key4, c.pos(w.call), "decoder helper receives the loop-invariant container and the cursor and takes b[n:] itself", "the container handed to the decode helper changes inside the loop")
+		default:
 			r.Ok("R4", key4, c.pos(w.call), "re-slicing form: decoder receives the remaining container")
 		}
 		c.c04WalkExit(w)
@@ -296,126 +381,94 @@ func (c *Ctx) c04DecoderFn(f *ssa.Function, data *ssa.Parameter, lenStore *ssa.S
 	}
 	lenStore = wire
 
-	isLenLoad := func(v ssa.Value) bool {
-		u, ok := v.(*ssa.UnOp)
-		if !ok || u.Op != token.MUL {
-			return false
-		}
-		tn, fld, _, ok := flow.FieldOf(u)
-		return ok && tn == "AVP" && fld == "Length" && flow.Dominates(lenStore, u)
-	}
-	// the cut: data' = data[:Length]
-	var cut *ssa.Slice
-	flow.Instrs(f, func(in ssa.Instruction) {
-		if sl, ok := in.(*ssa.Slice); ok && sl.X == ssa.Value(data) && sl.Low == nil && sl.High != nil && isLenLoad(sl.High) {
-			cut = sl
-		}
-	})
-	key = fname(f) + ":Length<=len(data)"
-	if cut == nil {
-		r.Fail("R2", key, c.fpos(f), "the input is not cut to the declared Length (data = data[:Length]) before the payload is taken: the payload can extend beyond the AVP's declared end")
-		return
-	}
-	// guard: false edge of len(data) < Length (or Length > len(data)) dominates cut; true edge returns error
-	g1 := c.findLenGuard(f, cut, data, func(other ssa.Value) bool { return isLenLoad(other) }, true)
-	r.Check(g1 != "", "R2", key, c.pos(cut), "cut data[:Length] dominated by the failing-edge-returns-error guard "+g1, "data[:Length] is not dominated by a guard rejecting Length > len(data) with an error: a declared length longer than the container is accepted / panics")
-
-	// payload slices: Slice of cut with const low
-	type pay struct {
-		sl  *ssa.Slice
-		low int64
-	}
-	var pays []pay
-	flow.Instrs(f, func(in ssa.Instruction) {
-		if sl, ok := in.(*ssa.Slice); ok && sl.X == ssa.Value(cut) && sl.High == nil {
-			if lo, ok := flow.ConstInt(sl.Low); ok && lo >= 8 {
-				pays = append(pays, pay{sl, lo})
+	// ---- symbolic evaluation of the bytes given to datatype.Decode ----
+	e := c.newAVPSym(f, data, lenStore.Val)
+	// the decode call: in the decoder or in a helper it calls (same package)
+	var uses []ssa.CallInstruction
+	fam := map[*ssa.Function]bool{f: true}
+	work := []*ssa.Function{f}
+	for len(work) > 0 {
+		g := work[0]
+		work = work[1:]
+		for _, ci := range flow.CallInstrs(g) {
+			if flow.IsCallTo(ci, pkgDatatype, "", "Decode") {
+				uses = append(uses, ci)
+			}
+			h := flow.StaticCallee(ci)
+			if h != nil && h.Blocks != nil && c.P.IsLibrary(h) && pkgOf(h).Path() == pkgDiam && !fam[h] && h.Signature.Recv() != nil && flow.RecvTypeName(h.Signature) == "AVP" && !c.isAVPDecodeFn(h) {
+				fam[h] = true
+				work = append(work, h)
 			}
 		}
-	})
-	if len(pays) == 0 {
-		r.Fail("R3", fname(f)+":payload", c.fpos(f), "no payload slice data[:Length][hdr:] found: the payload is not taken from the Length-bounded data")
+	}
+	if len(uses) == 0 {
+		r.Fail("R3", fname(f)+":payload", c.fpos(f), "the AVP decoder never hands a payload to datatype.Decode")
 		return
 	}
-	sawV, sawNoV := false, false
-	for _, p := range pays {
-		key := fmt.Sprintf("%s:hdr%d<=Length", fname(f), p.low)
-		// guard len(cut) < K with K >= low on failing edge returning error
-		g := c.findConstLenGuard(f, p.sl, cut, p.low)
-		r.Check(g != "", "R2", key, c.pos(p.sl), fmt.Sprintf("payload slice [%d:] dominated by guard %s", p.low, g),
-			fmt.Sprintf("the payload slice data[%d:] is not dominated by a guard rejecting Length < %d with an error: a declared length shorter than the AVP header panics or mis-frames", p.low, p.low))
-		// V predicate
-		vEdge := ""
-		for _, gd := range flow.Guards(p.sl) {
-			cond, neg := flow.Cond(gd.If.Cond, gd.Taken)
-			if isVbitTest(cond) {
-				if neg {
-					vEdge = "noV"
-				} else {
-					vEdge = "V"
-				}
-			}
+	for ui, use := range uses {
+		sfx := ""
+		if ui > 0 {
+			sfx = fmt.Sprintf("#%d", ui+1)
 		}
-		key = fmt.Sprintf("%s:hdr%d-iff-V", fname(f), p.low)
-		switch {
-		case p.low == 12 && vEdge == "V":
-			sawV = true
-			r.Ok("R2", key, c.pos(p.sl), "12-byte header exactly on the Flags&Vbit edge")
-		case p.low == 8 && vEdge == "noV":
-			sawNoV = true
-			r.Ok("R2", key, c.pos(p.sl), "8-byte header exactly on the non-V edge")
-		default:
-			r.Fail("R2", key, c.pos(p.sl), fmt.Sprintf("payload offset %d is not selected by the V-flag predicate (edge: %q)", p.low, vEdge))
-		}
-	}
-	if !(sawV && sawNoV) {
-		r.Fail("R2", fname(f)+":both-header-sizes", c.fpos(f), "the decoder does not distinguish 8- and 12-byte AVP headers by the V flag")
-	}
-	// R3: argument of datatype.Decode
-	for _, ci := range flow.CallInstrs(f) {
-		if !flow.IsCallTo(ci, pkgDatatype, "", "Decode") {
+		alts := e.slices(use.Common().Args[1], 0)
+		if alts == nil {
+			r.Undecided("R3", fname(f)+":decode-arg"+sfx, c.pos(use), "cannot express the bytes given to datatype.Decode as a window of the decoder's input ("+strings.Join(e.unk, "; ")+")")
 			continue
 		}
-		key := fname(f) + ":decode-arg"
-		arg := ci.Common().Args[1]
-		good := true
-		var srcs []ssa.Value
-		if ph, ok := arg.(*ssa.Phi); ok {
-			srcs = ph.Edges
-		} else {
-			srcs = []ssa.Value{arg}
+		// R3: window = [hdr, L) with hdr 12 under V and 8 otherwise
+		good, why := true, ""
+		seen := map[string]bool{}
+		for _, al := range alts {
+			wantLo := int64(8)
+			if al.tag == "V" {
+				wantLo = 12
+			}
+			switch {
+			case al.tag == "":
+				good, why = false, fmt.Sprintf("the payload window [%s, %s) is not selected by the V-flag predicate", al.lo, al.hi)
+			case al.hi != (lin{l: 1}):
+				good, why = false, fmt.Sprintf("the payload given to datatype.Decode ends at %s instead of the declared Length: bytes beyond the AVP's declared end (padding, the next AVP) are decoded as payload, or payload is cut", al.hi)
+			case al.lo != (lin{k: wantLo}):
+				good, why = false, fmt.Sprintf("under %s the payload starts at offset %s instead of %d", al.tag, al.lo, wantLo)
+			}
+			seen[al.tag] = true
 		}
-		for _, s := range srcs {
-			match := false
-			for _, p := range pays {
-				if s == ssa.Value(p.sl) {
-					match = true
+		if good && !(seen["V"] && seen["noV"]) {
+			good, why = false, "the decoder does not distinguish 8- and 12-byte AVP headers by the V flag"
+		}
+		r.Check(good, "R3", fname(f)+":decode-arg"+sfx, c.pos(use), "datatype.Decode receives exactly data[hdr:Length], hdr = 12 under the V flag and 8 otherwise", "the bytes given to datatype.Decode are not exactly data[hdr:Length]: "+why)
+		if !good {
+			continue
+		}
+		// R2: on every path to the use, Length ≤ len(data) and hdr ≤ Length hold because violating edges
+		// return errors
+		reqs := []struct {
+			key, tag string
+			req      lin
+			what     string
+		}{
+			{"Length<=len(data)", "V", lin{n: 1, l: -1}, "a declared length longer than the container is accepted / panics"},
+			{"Length<=len(data)", "noV", lin{n: 1, l: -1}, "a declared length longer than the container is accepted / panics"},
+			{"hdr12<=Length", "V", lin{l: 1, k: -12}, "a declared length shorter than the 12-byte vendor header panics or mis-frames"},
+			{"hdr8<=Length", "noV", lin{l: 1, k: -8}, "a declared length shorter than the 8-byte AVP header panics or mis-frames"},
+		}
+		done := map[string]bool{}
+		for _, q := range reqs {
+			key := fname(f) + ":" + q.key + sfx
+			ok, desc := e.holdsAt(use, q.req, q.tag, 0)
+			if !ok {
+				if !done[key+"!"] {
+					r.Fail("R2", key, c.pos(use), fmt.Sprintf("no guard with an error-returning failing edge establishes %s ≥ 0 (tag %s) before the payload is decoded: %s", q.req, q.tag, q.what))
+					done[key+"!"] = true
 				}
+				continue
 			}
-			if !match {
-				good = false
+			if !done[key] && !done[key+"!"] {
+				r.Ok("R2", key, c.pos(use), "established by the guard "+desc+" whose failing edge returns an error")
+				done[key] = true
 			}
 		}
-		r.Check(good, "R3", key, c.pos(ci), "datatype.Decode receives exactly data[:Length][hdr:]", "the bytes given to datatype.Decode are not exactly data[hdr:Length] (re-sliced or taken from the uncut buffer)")
 	}
-}
-
-func isVbitTest(cond ssa.Value) bool {
-	bo, ok := cond.(*ssa.BinOp)
-	if !ok || bo.Op != token.EQL {
-		return false
-	}
-	and, ok := bo.X.(*ssa.BinOp)
-	if !ok || and.Op != token.AND {
-		return false
-	}
-	c1, ok1 := flow.ConstInt(and.Y)
-	c2, ok2 := flow.ConstInt(bo.Y)
-	if !ok1 || !ok2 || c1 != 0x80 || c2 != 0x80 {
-		return false
-	}
-	_, fld, _, ok := flow.FieldOf(and.X)
-	return ok && fld == "Flags"
 }
 
 // returnsNonNilError: every path from the first instruction of blk to a Return has a non-nil
@@ -521,10 +574,10 @@ func (c *Ctx) c04WalkExit(w *walkLoop) {
 	key := fname(w.fn) + ":walk-exit"
 	var cursor ssa.Value
 	var container ssa.Value
-	if w.slice != nil {
-		cursor, container = w.slice.Low, w.slice.X
+	if w.cursor != nil {
+		cursor, container = w.cursor, w.container
 	} else {
-		container = w.call.Call.Args[0] // the loop phi itself
+		container = w.container // the loop phi itself
 	}
 	n := 0
 	for b := range w.loop.Blocks {
@@ -575,4 +628,34 @@ func (c *Ctx) c04WalkExit(w *walkLoop) {
 		return
 	}
 	r.Ok("R5", key, c.pos(w.call), fmt.Sprintf("%d exit edges: error returns, or the cursor reached len(container)", n))
+}
+
+// avpDecoder: the function that stores the wire-derived Length into an AVP, its input bytes and that value.
+func (c *Ctx) avpDecoder() (*ssa.Function, *ssa.Parameter, ssa.Value) {
+	for _, f := range c.P.LibraryFuncs() {
+		if pkgOf(f).Path() != pkgDiam || len(f.Params) < 2 {
+			continue
+		}
+		data := byteParam(f)
+		if data == nil {
+			continue
+		}
+		var wire ssa.Value
+		rd := &lanes.Reader{
+			IsBase:   func(v ssa.Value) bool { return v == ssa.Value(data) },
+			MaxDepth: 3,
+			Callee:   c.laneCallee,
+		}
+		flow.Instrs(f, func(in ssa.Instruction) {
+			if st, ok := in.(*ssa.Store); ok {
+				if tn, fld, _, ok := flow.FieldOf(st.Addr); ok && tn == "AVP" && fld == "Length" && rd.Eval(st.Val).IsBigEndianOf(5, 8) {
+					wire = st.Val
+				}
+			}
+		})
+		if wire != nil {
+			return f, data, wire
+		}
+	}
+	return nil, nil, nil
 }
